@@ -4,7 +4,7 @@
    Lemmas: Proofs/C14.v, Lib/C14_ProtoWireFacts.v.  Schemas: Generated/C14Schemas.v. *)
 From Coq Require Import List NArith Bool.
 From GQ Require Import Lib.Key Lib.C14_Varint Lib.C14_BigEndian Lib.C14_ProtoWire Lib.C14_ProtoWireFacts
-  Lib.C14_RLP Generated.C14Schemas Model.C14 Proofs.C14.
+  Lib.C14_ProtoWireNF Lib.C14_RLP Generated.C14Schemas Model.C14 Proofs.C14.
 Import ListNotations.
 Local Open Scope N_scope.
 
@@ -66,6 +66,23 @@ Theorem proto_reencode_canonical : forall id m' m, wf_msg sc id m' = true -> len
   decode sc id (encode m') = Some m -> encode m = encode m'.
 Proof. exact sc_reencode. Qed.
 Print Assumptions proto_reencode_canonical.
+
+(* the decoder (any field order, duplicates, padded varints, unknown fields) only returns normal forms *)
+Theorem proto_decode_normal_form : forall id b m, wf_bytes b -> decode sc id b = Some m -> wf_msg sc id m = true.
+Proof. exact sc_decode_wf. Qed.
+Print Assumptions proto_decode_normal_form.
+
+(* decode . encode . decode = decode: what was accepted re-encodes to canonical bytes of the same message *)
+Theorem proto_decode_idempotent : forall id b m, wf_bytes b -> decode sc id b = Some m ->
+  len (encode m) < u64 -> decode sc id (encode m) = Some m.
+Proof. exact sc_decode_idempotent. Qed.
+Print Assumptions proto_decode_idempotent.
+
+(* encode (decode b) == b exactly for the canonical byte strings *)
+Theorem proto_reencode_iff_canonical : forall id b m, wf_bytes b -> len b < u64 -> decode sc id b = Some m ->
+  (encode m = b <-> exists m', wf_msg sc id m' = true /\ b = encode m').
+Proof. exact sc_reencode_iff. Qed.
+Print Assumptions proto_reencode_iff_canonical.
 
 (* the generic theorem itself, for any schema that passes the check *)
 Theorem proto_roundtrip_any_schema : forall s id m, schema_ok s = true -> wf_msg s id m = true ->
@@ -159,6 +176,40 @@ Theorem termini_pads : forall t,
 Proof. exact Proofs.C14.termini_pads. Qed.
 Print Assumptions termini_pads.
 
+(* ---- rawdb: UTXO keys and coinbase lockup records (fixed-width big-endian fields) ---- *)
+Theorem utxokey_roundtrip : forall h i, length h = 32%nat -> i < 65536 ->
+  reverse_utxo_key (utxo_key h i) = DOk (h, i).
+Proof. exact utxo_key_roundtrip. Qed.
+Print Assumptions utxokey_roundtrip.
+
+Theorem utxokey_injective : forall h1 i1 h2 i2,
+  length h1 = 32%nat -> length h2 = 32%nat -> i1 < 65536 -> i2 < 65536 ->
+  utxo_key h1 i1 = utxo_key h2 i2 -> h1 = h2 /\ i1 = i2.
+Proof. exact utxo_key_injective. Qed.
+Print Assumptions utxokey_injective.
+
+(* outside the normal form: ReverseUtxoKey checks the length only, any 2-byte prefix is accepted *)
+Theorem utxokey_reverse_ignores_prefix : forall p1 p2 rest, length p1 = 2%nat -> length p2 = 2%nat ->
+  reverse_utxo_key (p1 ++ rest) = reverse_utxo_key (p2 ++ rest).
+Proof. exact reverse_utxo_key_ignores_prefix. Qed.
+Print Assumptions utxokey_reverse_ignores_prefix.
+
+(* normal form: amount < 2^256, uint32 height, uint16 elements, delegate absent or a non-zero 20-byte address *)
+Theorem lockup_record_roundtrip : forall l, lockup_nf l ->
+  exists b, lockup_encode l = DOk b /\ lockup_decode b = l /\
+            length b = match lk_delegate l with Some _ => 58%nat | None => 38%nat end.
+Proof. exact lockup_roundtrip. Qed.
+Print Assumptions lockup_record_roundtrip.
+
+Theorem lockup_rejects_wide_amount : forall l, 256 ^ 32 <= lk_amount l -> lockup_encode l = DErr.
+Proof. exact Proofs.C14.lockup_rejects_wide_amount. Qed.
+Print Assumptions lockup_rejects_wide_amount.
+
+Theorem lockup_zero_delegate_dropped : forall a h e d, is_zero_bytes d = true ->
+  lockup_encode (mkLockup a h e (Some d)) = lockup_encode (mkLockup a h e None).
+Proof. exact Proofs.C14.lockup_zero_delegate_dropped. Qed.
+Print Assumptions lockup_zero_delegate_dropped.
+
 (* ---- non-vacuity ---- *)
 Example proto_roundtrip_nonvacuous :
   let m := [(1, FInt 2); (7, FBytes [1]); (15, FMsg [(1, FMsg [(1, FMsg [(1, FMsg [(1, FBytes (repeat 7 32))]); (2, FInt 65535)]); (2, FBytes (repeat 2 33))])]);
@@ -187,4 +238,13 @@ Proof. repeat split; repeat constructor. Qed.
 Example rlp_roundtrip_nonvacuous :
   rlp_decode (rlp_encode (Lst [Str [1]; Str (repeat 200 60); Lst [Str []; Str [128]]])) =
   Some (Lst [Str [1]; Str (repeat 200 60); Lst [Str []; Str [128]]]).
+Proof. vm_compute. reflexivity. Qed.
+
+Example lockup_roundtrip_nonvacuous :
+  let l := mkLockup (2 ^ 200 + 5) 1171500 365 (Some (repeat 9 20)) in
+  lockup_nf l /\ (exists b, lockup_encode l = DOk b /\ length b = 58%nat /\ lockup_decode b = l).
+Proof. split; [repeat split; vm_compute; reflexivity|eexists; vm_compute; repeat split]. Qed.
+
+Example utxokey_roundtrip_nonvacuous :
+  utxo_key (repeat 3 32) 513 = [117; 116] ++ repeat 3 32 ++ [2; 1].
 Proof. vm_compute. reflexivity. Qed.
